@@ -201,6 +201,15 @@ def proof_step(pid, theorems):
 def run_check(pid, tier, seed):
     mod = importlib.import_module('hv.props.%s' % pid)
     ctx = Ctx(pid, tier, seed)
+    # replays of earlier runs of this check are stale
+    rd = os.path.join(VERIF, 'replays')
+    if os.path.isdir(rd):
+        for f in os.listdir(rd):
+            if f.startswith(pid + '-'):
+                try:
+                    os.remove(os.path.join(rd, f))
+                except OSError:
+                    pass
     known, _fixed = core.load_known()
     known = [k for k in known if k['property'] == pid]
     t0 = time.time()
